@@ -44,7 +44,9 @@ Inductive form :=
 
 Record import := { i_path : key; i_form : form }.
 Record def := { d_name : ident; d_pub : bool; d_fn : bool }.   (* d_fn: `fn`, else `let` *)
-Record module := { m_imports : list import; m_defs : list def }.
+(* m_fault: 0 = fine, 1 = the body does not compile (an undefined name), 2 = the top level raises right
+   after it started (after its first visible effect, before any definition) *)
+Record module := { m_imports : list import; m_defs : list def; m_fault : N }.
 (* the directory tree: real files, symlinks (a file's or a directory's path -> the real path it
    points to) and the explicit paths of the entry's aelys.toml manifest ([module.<dotted name>]
    path = "..."), each relative to the directory of whichever file contains the `needs` *)
@@ -220,7 +222,8 @@ Record event := {
   ev_key : key;                (* the dotted path it was first imported under ([] for the entry) *)
   ev_aliases : list ident;     (* Compiler.module_aliases *)
   ev_known : list ident;       (* Compiler.known_globals + its own definitions *)
-  ev_ns : nsmap                (* VM.globals as its top level sees them *)
+  ev_ns : nsmap;               (* VM.globals as its top level sees them *)
+  ev_done : bool               (* the top level ran to completion (false: it raised) *)
 }.
 
 Record lstate := {
@@ -231,15 +234,17 @@ Record lstate := {
   events : list event            (* oldest first *)
 }.
 
-Inductive errk := ECircular | ENotFound | ESymbolNotFound | ESymbolConflict.
+Inductive errk := ECircular | ENotFound | ESymbolNotFound | ESymbolConflict | ECompile | ERuntime.
 Inductive lres := LModule (a : ident) | LSymbol (s : ident).
 
 Inductive res (A : Type) :=
 | Ok (a : A)
-| Err (e : errk) (tr : list event)    (* error kind + what had run before it *)
+| Err (e : errk) (st : lstate)    (* error kind + the loader/VM state it leaves behind: what had run
+                                     (events), VM.globals (ns), and in `loaded` the modules that are
+                                     initialised (an unfinished one is forgotten while unwinding) *)
 | Fuel.
 Arguments Ok {A} a.
-Arguments Err {A} e tr.
+Arguments Err {A} e st.
 Arguments Fuel {A}.
 
 (* get_module_alias / get_load_result *)
@@ -364,6 +369,15 @@ Fixpoint go_mod (fs : fsys) (root : list ident) (ld : loader) (imps : list impor
 
 (* compile_module (with the push/pop that load_module does around it): `eimp` is the import the
    statement stands for (`needs m.s` = `needs s from m`), `m` the parsed file *)
+(* a module whose top level did not complete is not loaded (compile_module removes it again) *)
+Fixpoint remove_key {A} (k : key) (l : list (key * A)) : list (key * A) :=
+  match l with
+  | [] => []
+  | (k', v) :: r => if key_eqb k k' then remove_key k r else (k', v) :: remove_key k r
+  end.
+Definition forget (file : fpath) (s : lstate) : lstate :=
+  {| loaded := remove_key file (loaded s); stack := stack s; base := base s; ns := ns s; events := events s |}.
+
 Definition compile (fs : fsys) (root : list ident) (ld : loader) (file : fpath) (eimp : import)
                    (m : module) (st : lstate) : res (lstate * lres) :=
   let ex := pub_names m in
@@ -373,14 +387,23 @@ Definition compile (fs : fsys) (root : list ident) (ld : loader) (file : fpath) 
                 base := dir_of file; ns := ns st; events := events st |} in
   match go_mod fs root ld (m_imports m) st1 ([], []) with
   | Fuel => Fuel
-  | Err e tr => Err e tr
+  | Err e s => Err e (forget file s)
   | Ok (st2, acc) =>
+      if m_fault m =? 1 then Err ECompile (forget file st2)      (* type inference / compilation of the body *)
+      else if m_fault m =? 2 then
+        (* the top level starts, is seen, and raises: nothing is synced, nothing registered *)
+        let ev := {| ev_file := file; ev_key := i_path eimp; ev_aliases := fst acc;
+                     ev_known := map d_name (m_defs m) ++ snd acc; ev_ns := ns st2; ev_done := false |} in
+        Err ERuntime (forget file {| loaded := loaded st2; stack := stack st2; base := base st2;
+                                     ns := ns st2; events := events st2 ++ [ev] |})
+      else
       (* body runs; globals synced; exports registered for this importer *)
       let s1 := write_defs file m (ns st2) in
       let ev := {| ev_file := file; ev_key := i_path eimp; ev_aliases := fst acc;
-                   ev_known := map d_name (m_defs m) ++ snd acc; ev_ns := s1 |} in
+                   ev_known := map d_name (m_defs m) ++ snd acc; ev_ns := s1; ev_done := true |} in
       match bind_exports eimp ex s1 with
-      | None => Err ESymbolNotFound (events st2 ++ [ev])
+      | None => Err ESymbolNotFound {| loaded := loaded st2; stack := tl (stack st2); base := base st;
+                                        ns := s1; events := events st2 ++ [ev] |}
       | Some s2 =>
           Ok ({| loaded := loaded st2; stack := tl (stack st2); base := base st;
                  ns := s2; events := events st2 ++ [ev] |}, lres_of eimp)
@@ -392,11 +415,11 @@ Definition load_step (fs : fsys) (root : list ident) (ld : loader) (i : import) 
   : res (lstate * lres) :=
   let p := i_path i in
   match p with
-  | [] => Err ENotFound (events st)
+  | [] => Err ENotFound st
   | _ :: _ =>
     if is_std p then Ok (st, lres_of i)
     else match resolve_fb fs root (base st) p with
-    | None => Err ENotFound (events st)
+    | None => Err ENotFound st
     | Some (file, actual, sym) =>
         (* `needs m.s` is the selective import of s from m *)
         let eimp := match sym with
@@ -406,17 +429,17 @@ Definition load_step (fs : fsys) (root : list ident) (ld : loader) (i : import) 
         (* the loading-stack check, then the memo: in the order found in load_module
            (cycle_before_memo, Extracted/ModulesTables.v) *)
         let on_stack := mem_key file (stack st) in
-        if cycle_before_memo && on_stack then Err ECircular (events st)
+        if cycle_before_memo && on_stack then Err ECircular st
         else match lookup file (loaded st) with
         | Some info =>
             match bind_exports eimp (mi_exports info) (ns st) with
-            | None => Err ESymbolNotFound (events st)
+            | None => Err ESymbolNotFound st
             | Some s => Ok (set_ns st s, lres_of eimp)
             end
         | None =>
-            if on_stack then Err ECircular (events st)
+            if on_stack then Err ECircular st
             else match find_file fs file with
-            | None => Err ENotFound (events st)
+            | None => Err ENotFound st
             | Some m => compile fs root ld file eimp m st
             end
         end
@@ -438,7 +461,7 @@ Fixpoint entry_go (fs : fsys) (root : list ident) (fuel : nat) (imps : list impo
       match load fs root fuel j s with
       | Ok (s', lr) =>
           match contrib_entry acc orig j lr (module_for fs root (base s') j (loaded s')) with
-          | None => Err ESymbolConflict (events s')
+          | None => Err ESymbolConflict s'
           | Some (acc', orig') => entry_go fs root fuel r s' acc' orig'
           end
       | Err e tr => Err e tr
@@ -451,7 +474,7 @@ Definition init_state (entry : fpath) : lstate :=
 
 Definition run (fs : fsys) (entry : fpath) (fuel : nat) : res (list event) :=
   match find_file fs entry with
-  | None => Err ENotFound []
+  | None => Err ENotFound (init_state entry)
   | Some m =>
       match entry_go fs (dir_of entry) fuel (m_imports m) (init_state entry) ([], []) [] with
       | Fuel => Fuel
@@ -459,44 +482,52 @@ Definition run (fs : fsys) (entry : fpath) (fuel : nat) : res (list event) :=
       | Ok (st, acc) =>
           let s1 := write_defs entry m (ns st) in
           Ok (events st ++ [{| ev_file := entry; ev_key := []; ev_aliases := fst acc;
-                               ev_known := map d_name (m_defs m) ++ snd acc; ev_ns := s1 |}])
+                               ev_known := map d_name (m_defs m) ++ snd acc; ev_ns := s1; ev_done := true |}])
       end
   end.
 
 (* ---- a REPL session: inputs run one after the other on one VM.  An input is a module without a
    file (run_with_vm resolves its imports from the working directory `root`); loaded_modules,
-   VM.globals and the names earlier inputs imported persist across inputs.  The session is modelled
-   up to its first failing input. *)
+   VM.globals and the names earlier ACCEPTED inputs imported persist across inputs.  A failing
+   input leaves behind what it did to the VM and -- if the session record is put back on the error
+   path too (memo_restored_on_error, Extracted/ModulesTables.v, from driver/src/api/repl.rs) -- the
+   modules that are initialised by then. *)
 Record sstate := { ss_st : lstate; ss_names : names }.
 
 Definition session_start (root : list ident) : sstate :=
   {| ss_st := {| loaded := []; stack := []; base := root; ns := []; events := [] |}; ss_names := ([], []) |}.
 
-(* one input: its imports are loaded on top of the session's state; its top level then sees its own
-   definitions, everything earlier inputs imported or defined, and what it imports itself *)
 Definition run_input (fs : fsys) (root : list ident) (fuel : nat) (name : fpath) (m : module) (ss : sstate)
   : res (sstate * event) :=
   match entry_go fs root fuel (m_imports m) (ss_st ss) (ss_names ss) [] with
   | Fuel => Fuel
-  | Err e tr => Err e tr
+  | Err e s => Err e s
   | Ok (st, acc) =>
       let s1 := write_defs name m (ns st) in
       let known := map d_name (m_defs m) ++ snd acc in
-      let ev := {| ev_file := name; ev_key := []; ev_aliases := fst acc; ev_known := known; ev_ns := s1 |} in
+      let ev := {| ev_file := name; ev_key := []; ev_aliases := fst acc; ev_known := known; ev_ns := s1; ev_done := true |} in
       Ok ({| ss_st := {| loaded := loaded st; stack := []; base := root; ns := s1; events := events st ++ [ev] |};
              ss_names := (fst acc, known) |}, ev)
   end.
 
+(* the session after a failing input *)
+Definition after_error (root : list ident) (ss : sstate) (s : lstate) : sstate :=
+  {| ss_st := {| loaded := if memo_restored_on_error then loaded s else [];
+                 stack := []; base := root; ns := ns s; events := events s |};
+     ss_names := ss_names ss |}.
+
+(* per input: the outcome and what it added to the init trace (its own top level last, when it ran) *)
 Fixpoint run_session (fs : fsys) (root : list ident) (fuel : nat) (inputs : list (fpath * module)) (ss : sstate)
   : list (res (list event)) :=
   match inputs with
   | [] => []
   | (name, m) :: r =>
+      let before := length (events (ss_st ss)) in
       match run_input fs root fuel name m ss with
-      | Ok (ss', _) =>
-          (* what this input added to the init trace, its own top level last *)
-          Ok (skipn (length (events (ss_st ss))) (events (ss_st ss'))) :: run_session fs root fuel r ss'
-      | Err e tr => [Err e (skipn (length (events (ss_st ss))) tr)]
+      | Ok (ss', _) => Ok (skipn before (events (ss_st ss'))) :: run_session fs root fuel r ss'
+      | Err e s =>
+          Err e {| loaded := loaded s; stack := stack s; base := base s; ns := ns s; events := skipn before (events s) |}
+          :: run_session fs root fuel r (after_error root ss s)
       | Fuel => [Fuel]
       end
   end.
